@@ -286,8 +286,9 @@ def plan(tier):
         # two preemptions for the conjunction body only (about a million schedules); the findall and
         # retract bodies have more scheduling points and stay at one preemption
         bound = 2 if (tier != 'quick' and variant == 0) else 1
-        nshard = 16 if bound == 1 else 128
-        sh += [('c', variant, bound, k, nshard) for k in range(nshard)]
+        # sharded by the thread that starts (choice 0) and by the position of the first later deviation
+        nshard = 8 if bound == 1 else 64
+        sh += [('c', variant, bound, (start, k), nshard) for start in (0, 1) for k in range(nshard)]
     return sh
 
 
@@ -394,7 +395,7 @@ def _run_shard(spec):
             if idx % 17 == 0:
                 acc.sample({'part': 'b', 'queries': [show_term(g) for g in goals], 'merge_orders': oi + 1}, limit=1)
     else:
-        _, variant, bound, k, n = spec
+        _, variant, bound, (start, k), n = spec
         pytext = compile_cached(show_program(PROG_C))
         # reference: each body alone
         try:
@@ -433,7 +434,7 @@ def _run_shard(spec):
             else:
                 acc.outcome((variant, repr(got)))
         try:
-            _threads_part(acc, pytext, variant, bound, k, n, check)
+            _threads_part(acc, pytext, variant, bound, start, k, n, check)
         except sched.Deadlock as e:
             # the blocked threads cannot be recovered: the shard ends here
             acc.n['evaluations'] += 1
@@ -445,16 +446,16 @@ def _run_shard(spec):
     return acc
 
 
-def _threads_part(acc, pytext, variant, bound, k, n, check):
+def _threads_part(acc, pytext, variant, bound, start, k, n, check):
         # determinism of the explorer itself: the default schedule twice
-        if k == 0:
+        if k == 0 and start == 0:
             x1 = sched.Baton(thread_bodies(pytext, variant), [], in_scope).run()
             x2 = sched.Baton(thread_bodies(pytext, variant), [], in_scope).run()
             if x1.choices != x2.choices or x1.results != x2.results:
                 raise RuntimeError('the same schedule did not reproduce: %d vs %d points' % (len(x1.points), len(x2.points)))
             acc.info['scheduling_points_default_schedule_variant_%d' % variant] = len(x1.points)
         st = sched.explore(lambda: thread_bodies(pytext, variant), in_scope, bound, check,
-                           first_filter=(lambda i: i % n == k))
+                           first_filter=(lambda i: i % n == k), root=[start])
         if k != 0:
             # the undeviated schedule is explored by every shard: count it once
             acc.n['evaluations'] -= 1
